@@ -272,6 +272,29 @@ def done_fn():
               members=[(r'^size\|.*std::vector', 'nv_vec_size'), (r'^size\|.*(indices_t|tensor_vector_storage_t, long, 1|tensor_base_t<long, 1)', 'nv_indices_size')])
 
 
+# ------------------------------------------------------------------------------------------------ history lemma (induction)
+HISTORY = '''
+int main(void)
+{
+  struct nv_tensor2d initial; double epsilon; uint64_t patience;
+  nv_thrown = 0;
+  nv_history_lemma(initial, epsilon, patience);
+  __CPROVER_assert(0, "nv_canary: end of harness reachable");
+  return 0;
+}
+'''
+
+
+def history_targets():
+    """the history lemma: the real constructor and accessors are executed, the real done() is used through the contract that the
+    target early_stopping_done proves (same macro NV_CONTRACT_early_stopping_done); the harness loop has a loop contract (loops=1)"""
+    def fns():
+        f = fit_fns()
+        return [done_fn(), f['ector'], f['eround'], f['evalue'], f['evalues']]
+    return [Target('monitor_history', fns, 'specs/C11/history_lemma.h', enforce_none=True, harness=HISTORY, replace=['early_stopping_done'], loops=1,
+                   note='induction over histories of arbitrary length: loop contract of the harness loop')]
+
+
 def c10_predict_targets():
     import importlib.util
     path = os.path.join(os.path.dirname(os.path.abspath(__file__)), '..', 'C10', 'spec.py')
@@ -285,6 +308,7 @@ def build(tier):
     targets = [Target('early_stopping_done', [done_fn()], 'specs/C11/early_stopping.h')]
     targets += boost_targets()
     targets += fit_targets(done_fn(), [f() for f in boost_fns()])
+    targets += history_targets()
     targets += average_targets()
     targets += util_targets() + store_targets() + merge_targets()
     # "prediction is bias plus the SUM of the weak learners' predictions": every weak learner ADDS its tables to the outputs
